@@ -26,8 +26,8 @@ SPEC = {
     'assumptions': ['the decoder in wcverif/rawdecode.py is the meaning C20 assigns to RAWCHARS'],
 }
 
-ALPHA = '\\xuN{}4107a*[]/'
-NAMES = ['\x00', '\x07', 'a\x00', '\x008', '0', '00', '7', 'A', 'AA', 'A1', '1', '41', 'x41', 'u0041', 'U00000041', 'N', 'a', 'aa', 'x', 'u', '4', '{', '}', '{}', 'x4',
+ALPHA = '\\xuN{}4107aA*[]/'
+NAMES = ['J', '\xe9', 'x4A', '\x00', '\x07', 'a\x00', '\x008', '0', '00', '7', 'A', 'AA', 'A1', '1', '41', 'x41', 'u0041', 'U00000041', 'N', 'a', 'aa', 'x', 'u', '4', '{', '}', '{}', 'x4',
          '*', '[', ']', '\\', '\\x41', 'A/A', 'a/a', 'A/', '/', 'a/A', '!', '\x04', '\x01', '\t', 'xA', 'Ax', 'N{a}', 'a}',
          '1}', 'x/a', '101', 'u', 'A*', '\\A', 'a\\', '\\\\']
 
@@ -136,6 +136,8 @@ PIECES = [
     ('\\t', L('t'), L('\t')), ('\\n', L('n'), L('\n')), ('\\a', L('a'), L('\a')), ('\\\\', L('\\'), L('\\')),
     ('\\x2a', L('x2a'), (('star',),)), ('\\x3f', L('x3f'), (('q',),)), ('\\52', L('52'), (('star',),)),
     ('\\q', L('q'), L('q')), ('\\*', L('*'), L('*')), ('\\?', L('?'), L('?')),
+    ('\\x4A', L('x4A'), L('J')), ('\\x4a', L('x4a'), L('J')), ('\\u00E9', L('u00E9'), L('\xe9')), ('\\U0001F600', L('U0001F600'), L('\U0001f600')),
+    ('\\x2A', L('x2A'), (('star',),)), ('\\N{LATIN SMALL LETTER A}', L('N{LATIN SMALL LETTER A}'), L('a')), ('\\N{latin small letter a}', L('N{latin small letter a}'), L('a')),
     ('\\0', L('0'), L('\x00')), ('\\00', L('00'), L('\x00')), ('\\000', L('000'), L('\x00')), ('\\7', L('7'), L('\x07')),
     ('\\x00', L('x00'), L('\x00')), ('\\377', L('377'), L('\xff')), ('\\x7f', L('x7f'), L('\x7f')), ('\\08', L('08'), L('\x008')),
     ('a', L('a'), L('a')), ('1', L('1'), L('1')), ('x', L('x'), L('x')), ('4', L('4'), L('4')),
